@@ -15,6 +15,12 @@ CHECKS = {
             'DESIGN.md §3 C06'),
 }
 
+CHECKS['C04'] = ('model_checking',
+    'symbolic execution of the real naming/column-conversion code with CrossHair/z3 (symbolic columns, boundary-pool rows)',
+    'Bounded symbolic checking: column letters<->numbers inverse both ways on all 16384 columns / every [A-Za-z]{1,3} spelling; fast_range2parts (v1-v4) names every rectangle with symbolic columns and boundary-pool rows exactly as the statement\'s canonical text (hence injectively), identically for A1/R1C1 numbering, letter case and the redundant A1:A1 form.',
+    'Regex capture semantics assumed (captures are the substrings written); rows from a boundary pool, not symbolic; sheet ids and relative R[..]C[..] forms bounded (selectors). ' + TB,
+    'DESIGN.md §3 C04')
+
 NA = {
     'C15': 'the dependency closure is computed over openpyxl worksheets read from .xlsx files while mutating the schedula dispatcher; neither can be given a symbolic state (DESIGN §4)',
     'C16': 'placement is done by openpyxl range iteration zipped with np.ravel and compared by re-reading files: I/O and third-party C code, no encodable kernel (DESIGN §4)',
